@@ -159,13 +159,13 @@ theorem int_td_str_agree (t0 t1 n : Int) (hn : n ≠ 0) (hal : (t1 - t0) % DAY =
         have : ¬ tdDays (t1 - t0) * n < 0 := by have := Int.mul_pos hd hpos; omega
         have h1 : t1 > t0 := hlt
         have h2 : ¬ (t0 + DAY * n ≤ t0) := by unfold DAY; omega
-        simp only [this, if_false, loopBranch, h1, if_true, h2]
+        simp only [this, hn, or_self, if_false, loopBranch, h1, if_true, h2]
       · have hd := tdDays_neg (t1 - t0) (by omega)
         have : tdDays (t1 - t0) * n < 0 := Int.mul_neg_of_neg_of_pos hd hpos
         have h1 : ¬ t1 > t0 := by omega
         have h3 : t1 < t0 := by omega
         have h2 : t0 + DAY * n ≥ t0 := by unfold DAY; omega
-        simp only [this, if_true, loopBranch, h1, if_false, h3, h2]
+        simp only [this, true_or, if_true, loopBranch, h1, if_false, h3, h2]
     · have hn' : ¬ n > 0 := by omega
       have hb : ¬ (Per.d = Per.b) := by decide
       simp only [hb, false_or, hn', if_false, hstep]
@@ -290,7 +290,8 @@ theorem single_forward (n : Int) (u : Per) (hu : u ≠ .b) (hn : 0 < n) (t0 t1 :
   have hi : 0 < n * (if u = Per.q then 3 else 1) := by split <;> omega
   have : ¬ tdDays (t1 - t0) * (n * (if u = Per.q then 3 else 1)) < 0 := by
     have := Int.mul_nonneg hd (Int.le_of_lt hi); omega
-  simp only [drange, hne, if_false, hu, false_or, hn', if_true, this]
+  have hz : ¬ (n * (if u = Per.q then 3 else 1) = 0) := by omega
+  simp only [drange, hne, if_false, hu, false_or, hn', if_true, this, hz, or_self]
 
 /-- a single period with a negative count (the repaired branch, F3): iterated backwards with `dt_bump` -/
 theorem single_backward (n : Int) (u : Per) (hu : u ≠ .b) (hn : n < 0) (t0 t1 : Int) (h : t1 < t0)
@@ -401,7 +402,8 @@ theorem single_eq_iter_step (n : Int) (u : Per) (hu : u ≠ .b) (hn : 0 < n) (t0
     have := Int.mul_nonneg hd (Int.le_of_lt hi); omega
   have h1 : t1 > t0 := h
   have h2 : ¬ dtBump [(n, u)] t0 ≤ t0 := by omega
-  simp only [drange, hne, if_false, hu, false_or, hn', if_true, this, loopBranch, h1, h2]
+  have hz : ¬ (n * (if u = Per.q then 3 else 1) = 0) := by omega
+  simp only [drange, hne, if_false, hu, false_or, hn', if_true, this, hz, or_self, loopBranch, h1, h2]
   congr 1
   unfold upTo
   have hstep : dtBump [(n, u)] = fun t => bump1 t n u := by funext t; rfl
@@ -608,7 +610,7 @@ theorem single_away_pos (n : Int) (u : Per) (hn : 0 < n) (t0 t1 : Int) (h : t1 <
   have hd := tdDays_neg (t1 - t0) (by omega)
   have hi : 0 < n * (if u = Per.q then 3 else 1) := by split <;> omega
   have : tdDays (t1 - t0) * (n * (if u = Per.q then 3 else 1)) < 0 := Int.mul_neg_of_neg_of_pos hd hi
-  simp only [drange, hne, if_false, hn', or_true, if_true, this]
+  simp only [drange, hne, if_false, hn', or_true, if_true, this, true_or]
 
 /-- …and a negative count of a fixed-length unit with `t0 < t1` (on the pinned tree this returned `[]` whenever
 `t1` was less than a day ahead) -/
@@ -661,7 +663,8 @@ theorem kb_stride (k : Int) (hk : 1 ≤ k) (t0 t1 : Int) (h : t0 < t1) :
     have := Int.mul_nonneg hd (show (0 : Int) ≤ k * 1 by omega); omega
   have hq : ¬ (Per.b = Per.q) := by decide
   have hk0 : ¬ k * 1 < 0 := by omega
-  simp only [drange, hne, if_false, true_or, if_true, hq, this, orient, hk0]
+  have hz : ¬ (k * 1 = 0) := by omega
+  simp only [drange, hne, if_false, true_or, if_true, hq, this, hz, or_self, orient, hk0]
   rw [show min t0 t1 = t0 by omega, show max t0 t1 = t1 by omega, Int.mul_one]
 
 theorem kb_stride_backward (k : Int) (hk : k ≤ -1) (t0 t1 : Int) (h : t1 < t0) :
@@ -674,7 +677,8 @@ theorem kb_stride_backward (k : Int) (hk : k ≤ -1) (t0 t1 : Int) (h : t1 < t0)
     have := Int.mul_pos_of_neg_of_neg hd (show k * 1 < 0 by omega); omega
   have hq : ¬ (Per.b = Per.q) := by decide
   have hk0 : k * 1 < 0 := by omega
-  simp only [drange, hne, if_false, true_or, if_true, hq, this, orient, hk0]
+  have hz : ¬ (k * 1 = 0) := by omega
+  simp only [drange, hne, if_false, true_or, if_true, hq, this, hz, or_self, orient, hk0]
   rw [show min t0 t1 = t1 by omega, show max t0 t1 = t0 by omega, Int.mul_one]
 
 /-- what "every k-th" means: element `i` of `l[::k]` is element `k*i` of `l` -/
@@ -785,5 +789,421 @@ example : TokParts [⟨.none, ['1'], 'm'⟩, ⟨.plus, ['2'], 'd'⟩] [(1, .m), 
 example : drange 63082281600000000 (63082281600000000 + 300 * DAY) (.period [(3, .m)])
     = .ok [63082281600000000, 63082281600000000 + 91 * DAY, 63082281600000000 + 182 * DAY,
       63082281600000000 + 274 * DAY] := by rfl
+
+/-! ### round h3: the away clause for compound tenors and for every spelling of a ZERO bump (F16: `'0b'`) -/
+
+/-- a compound tenor whose parts all point backwards, asked to go forwards (and the mirror image): `ValueError` -/
+theorem compound_away_neg (p q : Int × Per) (rest : List (Int × Per)) (t0 t1 : Int) (h : t0 < t1)
+    (hp : ∀ x ∈ p :: q :: rest, x.1 ≤ -1) : drange t0 t1 (.period (p :: q :: rest)) = .error .value := by
+  rw [compound_is_loopC p q rest t0 t1 (by omega)]
+  have := all_parts_move_backward (p :: q :: rest) (by simp) hp t0
+  exact loopC_away _ t0 t1 (Or.inl ⟨h, by omega⟩)
+
+theorem compound_away_pos (p q : Int × Per) (rest : List (Int × Per)) (t0 t1 : Int) (h : t1 < t0)
+    (hp : ∀ x ∈ p :: q :: rest, 1 ≤ x.1) : drange t0 t1 (.period (p :: q :: rest)) = .error .value := by
+  rw [compound_is_loopC p q rest t0 t1 (by omega)]
+  have := all_parts_move_forward (p :: q :: rest) (by simp) hp t0
+  exact loopC_away _ t0 t1 (Or.inr ⟨h, by omega⟩)
+
+example : drange 63082281600000000 (63082281600000000 + 9 * DAY) (.period [(-1, .m), (-2, .d)]) = .error .value :=
+  compound_away_neg _ _ _ _ _ (by decide) (by decide)
+
+/-- `'0b'` (also `'+0b'`, `'-0b'`: the count is 0) stands still: `ValueError`, whichever side `t1` is on and whatever the
+weekday of `t0` (F16: the pinned code returned the ascending '1b' list, which for `t1 < t0` does not even start at `t0`) -/
+theorem zero_b_away (t0 t1 : Int) (h : t0 ≠ t1) : drange t0 t1 (.period [(0, .b)]) = .error .value := by
+  simp [drange, h]
+
+/-- a zero count of ANY unit raises `ValueError` when `t0 ≠ t1` (month-based units at midnight, as the property claims them):
+`0`, `timedelta(0)`, `'0d'`, `'0w'`, `'0h'`, `'0n'`, `'0s'`, `'0b'`, `'0m'`, `'0q'`, `'0y'` never return an empty or unbounded list -/
+theorem period_zero_away (u : Per) (t0 t1 : Int) (h : t0 ≠ t1) (hm : u.fixed = false → u ≠ .b → t0 % DAY = 0) :
+    drange t0 t1 (.period [(0, u)]) = .error .value := by
+  by_cases hu : u = .b
+  · subst hu; exact zero_b_away t0 t1 h
+  · have hs : dtBump [(0, u)] t0 = t0 := by
+      cases u
+      case b => exact absurd rfl hu
+      case m => exact DRange.monthBump_zero t0 (hm rfl (by decide))
+      case q => exact DRange.monthBump_zero t0 (hm rfl (by decide))
+      case y =>
+        show yearBump t0 0 = t0
+        rw [DRange.yearBump_eq]; exact DRange.monthBump_zero t0 (hm rfl (by decide))
+      all_goals (simp [dtBump, bump1])
+    have := loopC_away (dtBump [(0, u)]) t0 t1 (by
+      rcases Int.lt_or_gt_of_ne h with h1 | h1
+      · exact Or.inl ⟨h1, by omega⟩
+      · exact Or.inr ⟨h1, by omega⟩)
+    simp [drange, h, hu, this]
+
+theorem int_zero_away (t0 t1 : Int) (h : t0 ≠ t1) : drange t0 t1 (.int 0) = .error .value := by
+  simp [drange, h, drangeInt]
+
+theorem td_zero_away (t0 t1 : Int) (h : t0 ≠ t1) : drange t0 t1 (.td 0) = .error .value := by
+  have := loop_away (· + 0) t0 t1 (by
+    rcases Int.lt_or_gt_of_ne h with h1 | h1
+    · exact Or.inl ⟨h1, by omega⟩
+    · exact Or.inr ⟨h1, by omega⟩)
+  simpa [drange, h] using this
+
+-- 2020-01-15 (Wed) back to 2020-01-06 with '0b': the pinned code answered [01-06, …, 01-15]
+example : drange (63082281600000000 + 9 * DAY) 63082281600000000 (.period [(0, .b)]) = .error .value := zero_b_away _ _ (by decide)
+example : drange 63082281600000000 (63082281600000000 + 9 * DAY) (.period [(0, .q)]) = .error .value :=
+  period_zero_away .q _ _ (by decide) (fun _ _ => by decide)
+
+/-! ### the C09 link for the backward lists and for tenors of mixed signs (review s3, improvement 3) -/
+
+/-- mirror image of `single_eq_iter_dtbump`: a single period with a negative count (`n < 0`, unit ≠ b) from `t0` back to
+`t1`, `0 ≤ t1 < t0 < MAXUS`: every element of the list is the C09 `dt_bump` (`Bump.bumpCs` on the token text) of its
+predecessor, and the C09 `dt_bump` of the last element, if it returns a value, is before `t1` -/
+theorem single_backward_c09 (k : Bump.Tok) (wf : k.WF) (n : Int) (u : Per) (hk : k.value = n ∧ k.unit = u.letter)
+    (hu : u ≠ .b) (hn : n < 0) (t0 t1 : Int) (h1 : 0 ≤ t1) (h : t1 < t0) (h0 : t0 < Bump.MAXUS) :
+    ∃ l, drange t0 t1 (.period [(n, u)]) = .ok l ∧ l.head? = some t0 ∧
+      (∀ i x y, l[i]? = some x → l[i + 1]? = some y → Bump.bumpCs k.text x = .ok y) ∧
+      (∀ x, l.getLast? = some x → ∀ y, Bump.bumpCs k.text x = .ok y → y < t1) ∧
+      (∀ x ∈ l, t1 ≤ x ∧ x ≤ t0) ∧ l.Pairwise (· > ·) := by
+  have hdec := all_parts_move_backward [(n, u)] (by simp) (fun p hp => by simp at hp; subst hp; show n ≤ -1; omega)
+  obtain ⟨l, e1, e2, e3, e4, e5⟩ := single_backward_all n u hu hn t0 t1 h
+  have htext : [k].flatMap Bump.Tok.text = k.text := by simp
+  have hc09 := fun t ht => dtbump_is_c09 [k] (fun x hx => by simp at hx; subst hx; exact wf) [(n, u)]
+    (by simp only [TokParts, and_true]; exact hk) t ht
+  simp only [htext] at hc09
+  refine ⟨l, e1, e3, ?_, ?_, e5, e4⟩
+  · intro i x y hx hy
+    have hi : i + 1 < l.length := by
+      rcases Nat.lt_or_ge (i + 1) l.length with hlt | hge
+      · exact hlt
+      · rw [List.getElem?_eq_none hge] at hy; cases hy
+    have a := (e2.1 i (by omega)).1
+    have b := (e2.1 (i + 1) hi).1
+    rw [hx] at a; rw [hy] at b
+    cases a; cases b
+    have hy1 := (e2.1 (i + 1) hi).2
+    have hx0 := (e5 _ (List.mem_of_getElem? hx))
+    have hyy : iter (dtBump [(n, u)]) (i + 1) t0 = dtBump [(n, u)] (iter (dtBump [(n, u)]) i t0) :=
+      iter_succ_outer _ i t0
+    rw [hyy] at hy1 ⊢
+    have hlt := hdec (iter (dtBump [(n, u)]) i t0)
+    exact (hc09 _ (by omega)).2 k n u rfl rfl (by omega) (by omega) (fun hb => absurd hb hu)
+  · intro x hx y hy
+    have hlen : l ≠ [] := by intro e; subst e; simp at hx
+    have hpos : 0 < l.length := by cases l with | nil => exact absurd rfl hlen | cons _ _ => simp
+    have hlast : l[l.length - 1]? = some x := by rw [← List.getLast?_eq_getElem?]; exact hx
+    have a := (e2.1 (l.length - 1) (by omega)).1
+    rw [hlast] at a; cases a
+    have hx0 := (e5 _ (List.mem_of_getElem? hlast)).1
+    have := (hc09 _ (by omega)).1 y hy
+    rw [this, ← iter_succ_outer (dtBump [(n, u)]) (l.length - 1) t0]
+    have e : l.length - 1 + 1 = l.length := by omega
+    rw [e]; exact e2.2
+
+/-- mirror image of `compound_c09`: compound tenors whose counts are all ≤ -1 -/
+theorem compound_backward_c09 (ks : List Bump.Tok) (wf : ∀ k ∈ ks, k.WF) (p q : Int × Per) (rest : List (Int × Per))
+    (hks : TokParts ks (p :: q :: rest)) (t0 t1 : Int) (h1 : 0 ≤ t1) (h : t1 < t0)
+    (hp : ∀ x ∈ p :: q :: rest, x.1 ≤ -1) :
+    ∃ l, drange t0 t1 (.period (p :: q :: rest)) = .ok l ∧ l.head? = some t0 ∧
+      (∀ i x y, l[i]? = some x → Bump.bumpCs (ks.flatMap Bump.Tok.text) x = .ok y →
+        (l[i + 1]? = some y ∨ (i + 1 = l.length ∧ y < t1))) ∧
+      (∀ x ∈ l, t1 ≤ x ∧ x ≤ t0) ∧ l.Pairwise (· > ·) := by
+  obtain ⟨l, e1, e2, e3, e4, e5⟩ := compound_backward_all p q rest t0 t1 h hp
+  refine ⟨l, e1, e3, ?_, e5, e4⟩
+  intro i x y hx hy
+  have hi : i < l.length := by
+    rcases Nat.lt_or_ge i l.length with hlt | hge
+    · exact hlt
+    · rw [List.getElem?_eq_none hge] at hx; cases hx
+  have a := (e2.1 i hi).1
+  rw [hx] at a; cases a
+  have hx0 := (e5 _ (List.mem_of_getElem? hx)).1
+  have hy' := (dtbump_is_c09 ks wf _ hks _ (by omega)).1 y hy
+  rw [← iter_succ_outer (dtBump (p :: q :: rest)) i t0] at hy'
+  by_cases hl : i + 1 < l.length
+  · exact Or.inl (by rw [(e2.1 (i + 1) hl).1, hy'])
+  · refine Or.inr ⟨by omega, ?_⟩
+    have e : i + 1 = l.length := by omega
+    rw [hy', e]; exact e2.2
+
+/-- compound tenors of ANY signs and units: if `drange` returns a list (it raises ValueError otherwise,
+`compound_never_unbounded`), then from every element the C09 `dt_bump`, whenever it returns a value, returns the next
+element — after the last one a value outside `[min t0 t1, max t0 t1]`.  Needs `0 ≤ min t0 t1` only (no definedness:
+the first half of `dtbump_is_c09`) -/
+theorem compound_mixed_c09 (ks : List Bump.Tok) (wf : ∀ k ∈ ks, k.WF) (p q : Int × Per) (rest : List (Int × Per))
+    (hks : TokParts ks (p :: q :: rest)) (t0 t1 : Int) (h0 : 0 ≤ min t0 t1) (l : List Int)
+    (hl : drange t0 t1 (.period (p :: q :: rest)) = .ok l) :
+    l.head? = some t0 ∧
+      (∀ i x y, l[i]? = some x → l[i + 1]? = some y →
+        ∀ y', Bump.bumpCs (ks.flatMap Bump.Tok.text) x = .ok y' → y' = y) ∧
+      (∀ x, l.getLast? = some x → ∀ y', Bump.bumpCs (ks.flatMap Bump.Tok.text) x = .ok y' → t0 ≠ t1 →
+        y' < min t0 t1 ∨ max t0 t1 < y') ∧
+      (∀ x ∈ l, min t0 t1 ≤ x ∧ x ≤ max t0 t1) := by
+  have key : ∀ l' : List Int, (∀ i, i < l'.length → l'[i]? = some (iter (dtBump (p :: q :: rest)) i t0)) →
+      (∀ x ∈ l', 0 ≤ x) →
+      (∀ i x y, l'[i]? = some x → l'[i + 1]? = some y →
+        ∀ y', Bump.bumpCs (ks.flatMap Bump.Tok.text) x = .ok y' → y' = y) ∧
+      (∀ x, l'.getLast? = some x → ∀ y', Bump.bumpCs (ks.flatMap Bump.Tok.text) x = .ok y' →
+        y' = iter (dtBump (p :: q :: rest)) l'.length t0) := by
+    intro l' hit hnn
+    refine ⟨fun i x y hx hy y' hy' => ?_, fun x hx y' hy' => ?_⟩
+    · have hi : i + 1 < l'.length := by
+        rcases Nat.lt_or_ge (i + 1) l'.length with hlt | hge
+        · exact hlt
+        · rw [List.getElem?_eq_none hge] at hy; cases hy
+      have a := hit i (by omega)
+      have b := hit (i + 1) hi
+      rw [hx] at a; rw [hy] at b
+      cases a; cases b
+      have := (dtbump_is_c09 ks wf _ hks _ (hnn _ (List.mem_of_getElem? hx))).1 y' hy'
+      rw [this, iter_succ_outer]
+    · have hlen : l' ≠ [] := by intro e; subst e; simp at hx
+      have hpos : 0 < l'.length := by cases l' with | nil => exact absurd rfl hlen | cons _ _ => simp
+      have hlast : l'[l'.length - 1]? = some x := by rw [← List.getLast?_eq_getElem?]; exact hx
+      have a := hit (l'.length - 1) (by omega)
+      rw [hlast] at a; cases a
+      have := (dtbump_is_c09 ks wf _ hks _ (hnn _ (List.mem_of_getElem? hlast))).1 y' hy'
+      rw [this, ← iter_succ_outer (dtBump (p :: q :: rest)) (l'.length - 1) t0]
+      have e : l'.length - 1 + 1 = l'.length := by omega
+      rw [e]
+  rcases Int.lt_trichotomy t0 t1 with hlt | heq | hgt
+  · rw [compound_is_loopC p q rest t0 t1 (by omega)] at hl
+    rcases loopC_forward (dtBump (p :: q :: rest)) t0 t1 hlt with ⟨l', e1, e2, e3, _, e5⟩ | ⟨e, _⟩
+    · rw [e1] at hl; cases hl
+      obtain ⟨k1, k2⟩ := key l (fun i hi => (e2.1 i hi).1) (fun x hx => by have := e5 x hx; omega)
+      refine ⟨e3, k1, fun x hx y' hy' _ => Or.inr ?_, fun x hx => by have := e5 x hx; omega⟩
+      rw [k2 x hx y' hy']; have := e2.2; omega
+    · rw [e] at hl; cases hl
+  · subst heq
+    rw [singleton] at hl; cases hl
+    refine ⟨rfl, fun i x y hx hy => by simp at hy, fun _ _ _ _ hne => absurd rfl hne, fun x hx => by simp at hx; omega⟩
+  · rw [compound_is_loopC p q rest t0 t1 (by omega)] at hl
+    rcases loopC_backward (dtBump (p :: q :: rest)) t0 t1 hgt with ⟨l', e1, e2, e3, _, e5⟩ | ⟨e, _⟩
+    · rw [e1] at hl; cases hl
+      obtain ⟨k1, k2⟩ := key l (fun i hi => (e2.1 i hi).1) (fun x hx => by have := e5 x hx; omega)
+      refine ⟨e3, k1, fun x hx y' hy' _ => Or.inl ?_, fun x hx => by have := e5 x hx; omega⟩
+      rw [k2 x hx y' hy']; have := e2.2; omega
+    · rw [e] at hl; cases hl
+
+-- hypotheses satisfiable: '-2m' from day 400 back to day 0
+example : ∃ l, drange (400 * DAY) 0 (.period [(-2, .m)]) = .ok l ∧ l.head? = some (400 * DAY) :=
+  let ⟨l, h1, h2, _⟩ := single_backward_c09 (Bump.numTok (-2) 'm') (Bump.numTok_wf _ _ (by decide)) (-2) .m
+    ⟨Bump.numTok_value _ _, rfl⟩ (by decide) (by decide) (400 * DAY) 0 (by decide) (by decide) (by decide)
+  ⟨l, h1, h2⟩
+
+-- '-1m-1d'
+example : ∃ l, drange (400 * DAY) 0 (.period [(-1, .m), (-1, .d)]) = .ok l ∧ l.head? = some (400 * DAY) :=
+  let ⟨l, h1, h2, _⟩ := compound_backward_c09 [Bump.numTok (-1) 'm', Bump.numTok (-1) 'd']
+    (by intro k hk; simp at hk; rcases hk with rfl | rfl <;> exact Bump.numTok_wf _ _ (by decide))
+    (-1, .m) (-1, .d) [] ⟨⟨Bump.numTok_value _ _, rfl⟩, ⟨Bump.numTok_value _ _, rfl⟩, trivial⟩
+    (400 * DAY) 0 (by decide) (by decide) (by decide)
+  ⟨l, h1, h2⟩
+
+-- a mixed tenor that does return a list: '2d-1d' over three days
+example : drange 0 (3 * DAY) (.period [(2, .d), (-1, .d)]) = .ok [0, DAY, 2 * DAY, 3 * DAY] := by rfl
+example : TokParts [Bump.numTok 2 'd', Bump.numTok (-1) 'd'] [(2, .d), (-1, .d)] :=
+  ⟨⟨Bump.numTok_value _ _, rfl⟩, ⟨Bump.numTok_value _ _, rfl⟩, trivial⟩
+
+/-! ### the driver's tokenizer `parsePeriod` reads the C09 tenor text back (review s3, improvement 4)
+
+`String.toNat?` of a run of digits is the C09 `digitsVal` (proved here from `String.Slice.isNat` / `foldl`; the lemmas of
+`Std.Data.String.ToNat` are not imported), so `parsePeriod (Bump.tenors ps)` are the parts the text was written from. -/
+
+theorem isNat_loop : ∀ (ds : List Char), (∀ c ∈ ds, c.isDigit = true) → ∀ b : Bool,
+    (forIn (m := Id) ds ((none : Option Bool), b) fun c __s =>
+              if c = '_' then
+                if (!__s.snd) = true then pure (ForInStep.done (some false, __s.snd))
+                else pure (ForInStep.yield (none, false))
+              else
+                if c.isDigit = true then pure (ForInStep.yield (none, true))
+                else pure (ForInStep.done (some false, __s.snd))) = pure (none, if ds = [] then b else true)
+  | [], _, b => by simp
+  | c :: cs, h, b => by
+    have hc : c.isDigit = true := h c (by simp)
+    have hu : c ≠ '_' := by intro e; subst e; revert hc; decide
+    rw [List.forIn_cons]
+    simp only [hu, if_false, hc, if_true]
+    simp only [pure_bind]
+    rw [isNat_loop cs (fun x hx => h x (by simp [hx])) true]
+    by_cases e : cs = [] <;> simp [e]
+
+theorem isNat_digits (ds : List Char) (hne : ds ≠ []) (hd : ∀ c ∈ ds, c.isDigit = true) :
+    (String.ofList ds).toSlice.isNat = true := by
+  unfold String.Slice.isNat
+  simp only [String.Slice.forIn_eq_forIn_toList, String.copy_toSlice, String.toList_ofList]
+  rw [isNat_loop ds hd false]
+  simp [hne]
+
+theorem toNat?_digits (ds : List Char) (hne : ds ≠ []) (hd : ∀ c ∈ ds, c.isDigit = true) :
+    (String.ofList ds).toNat? = some (Pyg.Bump.digitsVal ds) := by
+  unfold String.toNat? String.Slice.toNat?
+  rw [if_pos (isNat_digits ds hne hd)]
+  simp only [String.Slice.foldl_eq_foldl_toList, String.copy_toSlice, String.toList_ofList]
+  congr 1
+  unfold Pyg.Bump.digitsVal
+  generalize (0 : Nat) = a
+  induction ds generalizing a with
+  | nil => rfl
+  | cons c cs ih =>
+    have hc : c.isDigit = true := hd c (by simp)
+    have hu : c ≠ '_' := by intro e; subst e; revert hc; decide
+    simp only [List.foldl_cons, hu, if_false]
+    by_cases e : cs = []
+    · subst e; simp only [List.foldl_nil]; rw [Nat.mul_comm]; rfl
+    · rw [ih e (fun x hx => hd x (by simp [hx]))]
+      congr 1
+      rw [Nat.mul_comm]; rfl
+
+theorem takeWhile_run (ds : List Char) (u : Char) (rest : List Char) (hd : ∀ c ∈ ds, c.isDigit = true)
+    (hu : u.isDigit = false) :
+    (ds ++ u :: rest).takeWhile Char.isDigit = ds ∧ (ds ++ u :: rest).dropWhile Char.isDigit = u :: rest := by
+  induction ds with
+  | nil => simp [hu]
+  | cons c cs ih =>
+    have hc : c.isDigit = true := hd c (by simp)
+    have := ih (fun x hx => hd x (by simp [hx]))
+    simp [hc, this]
+
+theorem go_neg (ds : List Char) (u : Per) (rest : List Char) (fuel : Nat) (acc : List (Int × Per))
+    (hne : ds ≠ []) (hd : ∀ c ∈ ds, c.isDigit = true) :
+    parsePeriod.go ('-' :: (ds ++ u.letter :: rest)) (fuel + 1) acc =
+      parsePeriod.go rest fuel ((-(Bump.digitsVal ds : Int), u) :: acc) := by
+  have hl : u.letter.isDigit = false := by cases u <;> rfl
+  obtain ⟨h1, h2⟩ := takeWhile_run ds u.letter rest hd hl
+  rw [parsePeriod.go]
+  simp only [h1, h2, unitOf_letter, toNat?_digits ds hne hd]
+  obtain ⟨d0, ds', rfl⟩ : ∃ d0 ds', ds = d0 :: ds' := by
+    cases ds with
+    | nil => exact absurd rfl hne
+    | cons a b => exact ⟨a, b, rfl⟩
+  simp
+
+theorem go_pos (ds : List Char) (u : Per) (rest : List Char) (fuel : Nat) (acc : List (Int × Per))
+    (hne : ds ≠ []) (hd : ∀ c ∈ ds, c.isDigit = true) :
+    parsePeriod.go (ds ++ u.letter :: rest) (fuel + 1) acc =
+      parsePeriod.go rest fuel (((Bump.digitsVal ds : Int), u) :: acc) := by
+  have hl : u.letter.isDigit = false := by cases u <;> rfl
+  obtain ⟨h1, h2⟩ := takeWhile_run ds u.letter rest hd hl
+  obtain ⟨d0, ds', rfl⟩ : ∃ d0 ds', ds = d0 :: ds' := by
+    cases ds with
+    | nil => exact absurd rfl hne
+    | cons a b => exact ⟨a, b, rfl⟩
+  have hd0 : d0.isDigit = true := hd d0 (by simp)
+  have hs := Bump.digit_not_sign d0 hd0
+  rw [List.cons_append] at h1 h2
+  rw [List.cons_append, parsePeriod.go]
+  · simp only [h1, h2, unitOf_letter, toNat?_digits _ hne hd]
+    simp
+  · intro e; cases e
+  · intro r e; simp only [List.cons.injEq] at e; exact hs.1 e.1
+  · intro r e; simp only [List.cons.injEq] at e; exact hs.2 e.1
+
+theorem go_tenor (n : Int) (u : Per) (rest : List Char) (fuel : Nat) (acc : List (Int × Per)) :
+    parsePeriod.go (Bump.tenorCs n u.letter ++ rest) (fuel + 1) acc = parsePeriod.go rest fuel ((n, u) :: acc) := by
+  have hv := Bump.digitsVal_repr n.natAbs
+  unfold Bump.tenorCs Bump.numText
+  by_cases h : n < 0
+  · simp only [h, if_true, List.append_assoc, List.cons_append, List.nil_append]
+    rw [go_neg _ u rest fuel acc (Bump.repr_ne_nil _) (Bump.repr_digits _), hv]
+    congr 3; omega
+  · simp only [h, if_false, List.append_assoc, List.cons_append, List.nil_append]
+    rw [go_pos _ u rest fuel acc (Bump.repr_ne_nil _) (Bump.repr_digits _), hv]
+    congr 3; omega
+
+theorem go_tenors : ∀ (ps : List (Int × Per)) (fuel : Nat) (acc : List (Int × Per)), ps.length + 1 ≤ fuel →
+    parsePeriod.go (ps.flatMap fun p => Bump.tenorCs p.1 p.2.letter) fuel acc = some (acc.reverse ++ ps)
+  | [], fuel + 1, acc, _ => by simp [parsePeriod.go]
+  | p :: ps, fuel + 1, acc, h => by
+    rw [List.flatMap_cons, go_tenor, go_tenors ps fuel _ (by simpa using h)]
+    simp
+theorem tenors_length_ge : ∀ (ps : List (Int × Per)),
+    ps.length ≤ (ps.flatMap fun p => Bump.tenorCs p.1 p.2.letter).length
+  | [] => by simp
+  | p :: ps => by
+    have := tenors_length_ge ps
+    simp only [List.flatMap_cons, List.length_append, List.length_cons]
+    have : 1 ≤ (Bump.tenorCs p.1 p.2.letter).length := by simp [Bump.tenorCs]
+    omega
+
+/-- the text of a tenor written from parts: `'%d%s' % (n, letter)` for each part -/
+def partsText (ps : List (Int × Per)) : String := Bump.tenors (ps.map fun p => (p.1, p.2.letter))
+
+theorem parsePeriod_tenors_letters (ps : List (Int × Per)) : parsePeriod (partsText ps) = some ps := by
+  have hl : ∀ p ∈ ps.map (fun p : Int × Per => (p.1, p.2.letter)), p.2.toLower = p.2 := by
+    intro p hp
+    simp only [List.mem_map] at hp
+    obtain ⟨q, _, rfl⟩ := hp
+    cases q.2 <;> rfl
+  have h1 : (partsText ps).toLower.toList = ps.flatMap fun p => Bump.tenorCs p.1 p.2.letter := by
+    unfold String.toLower partsText
+    rw [String.toList_map]
+    have := Bump.lower_tenors _ hl
+    unfold Bump.lower at this
+    rw [this, List.flatMap_map]
+  have h2 : (partsText ps).length = (ps.flatMap fun p => Bump.tenorCs p.1 p.2.letter).length := by
+    unfold partsText Bump.tenors
+    rw [String.length_ofList, List.flatMap_map]
+  unfold parsePeriod
+  rw [h1, h2, go_tenors ps _ [] (by have := tenors_length_ge ps; omega)]
+  rfl
+
+theorem lowerUnit_letter : ∀ c ∈ Gen.periodUnits, c.toLower = c → (unitOf c).map Per.letter = some c := by decide
+
+/-- the `Per` of a unit letter (`d` for anything else) -/
+def perOf (c : Char) : Per := (unitOf c).getD .d
+
+theorem parsePeriod_tenors (ps : List (Int × Char)) (hu : ∀ p ∈ ps, Bump.LowerUnit p.2) :
+    parsePeriod (Bump.tenors ps) = some (ps.map fun p => (p.1, perOf p.2)) := by
+  have e : ps = (ps.map fun p => (p.1, perOf p.2)).map fun p => (p.1, p.2.letter) := by
+    rw [List.map_map]
+    conv => lhs; rw [← List.map_id ps]
+    apply List.map_congr_left
+    intro p hp
+    have := lowerUnit_letter p.2 (hu p hp).1 (hu p hp).2
+    unfold perOf
+    cases h : unitOf p.2 with
+    | none => rw [h] at this; cases this
+    | some u =>
+      rw [h] at this; simp only [Option.map_some, Option.some.injEq] at this
+      show p = (p.1, ((unitOf p.2).getD Per.d).letter)
+      rw [h, Option.getD_some, this]
+  conv => lhs; rw [e]
+  exact parsePeriod_tenors_letters _
+
+theorem parsePeriod_tenor (n : Int) (c : Char) (hu : Bump.LowerUnit c) :
+    parsePeriod (Bump.tenor n c) = some [(n, perOf c)] := by
+  have := parsePeriod_tenors [(n, c)] (fun p hp => by simp at hp; subst hp; exact hu)
+  simpa [Bump.tenors, Bump.tenor] using this
+
+example : parsePeriod (Bump.tenors [(1, 'y'), (-3, 'm'), (2, 'd')]) = some [(1, .y), (-3, .m), (2, .d)] :=
+  parsePeriod_tenors _ (by decide)
+example : parsePeriod (Bump.tenor (-3) 'b') = some [(-3, .b)] := parsePeriod_tenor _ _ (by decide)
+example : (String.ofList ['5', '8', '7']).toNat? = some 587 := toNat?_digits _ (by decide) (by decide)
+
+/-- the tokens `'%d%s' % (n, letter)` stand for the parts they were written from: `TokParts` is discharged for every
+text the harness sends -/
+theorem tokParts_numToks : ∀ ps : List (Int × Per), TokParts (ps.map fun p => Bump.numTok p.1 p.2.letter) ps
+  | [] => trivial
+  | _ :: ps => ⟨⟨Bump.numTok_value _ _, rfl⟩, tokParts_numToks ps⟩
+
+theorem numToks_wf (ps : List (Int × Per)) : ∀ k ∈ ps.map (fun p => Bump.numTok p.1 p.2.letter), k.WF := by
+  intro k hk
+  simp only [List.mem_map] at hk
+  obtain ⟨p, _, rfl⟩ := hk
+  exact Bump.numTok_wf _ _ (by cases p.2 <;> decide)
+
+theorem numToks_text (ps : List (Int × Per)) :
+    (ps.map fun p => Bump.numTok p.1 p.2.letter).flatMap Bump.Tok.text =
+      ps.flatMap fun p => Bump.tenorCs p.1 p.2.letter := by
+  rw [List.flatMap_map]
+  congr 1; funext p; exact Bump.numTok_text _ _
+
+theorem period_text_c09 (ps : List (Int × Per)) (t : Int) (ht : 0 ≤ t) :
+    parsePeriod (partsText ps) = some ps ∧
+    ∀ t', Bump.bumpStr t (partsText ps) = .ok t' → t' = dtBump ps t := by
+  refine ⟨parsePeriod_tenors_letters ps, fun t' h => ?_⟩
+  have hl : ∀ p ∈ ps.map (fun p : Int × Per => (p.1, p.2.letter)), p.2.toLower = p.2 := by
+    intro p hp
+    simp only [List.mem_map] at hp
+    obtain ⟨q, _, rfl⟩ := hp
+    cases q.2 <;> rfl
+  unfold Bump.bumpStr partsText at h
+  rw [Bump.lower_tenors _ hl, Bump.resolveNamed_parts, List.flatMap_map, ← numToks_text] at h
+  exact (dtbump_is_c09 _ (numToks_wf ps) ps (tokParts_numToks ps) t ht).1 t' h
 
 end Pyg.Props.C10
